@@ -98,9 +98,9 @@ func groups(thorough bool) (gs [][]string, names []string) {
 		}
 	}
 	gs = append(gs, []string{
-		pat([]int{7, 8}, 0x2c),  // adjacent commas
-		pat([]int{0, 19}, 0x2c), // commas at both ends
-		pat([]int{3, 11}, 0x2c), // two commas
+		pat([]int{7, 8}, 0x2c),                             // adjacent commas
+		pat([]int{0, 19}, 0x2c),                            // commas at both ends
+		pat([]int{3, 11}, 0x2c),                            // two commas
 		hex.EncodeToString(bytes.Repeat([]byte{0x2c}, 20)), // all commas
 	})
 	names = append(names, "multi")
@@ -170,22 +170,22 @@ type vobs struct {
 }
 
 type env struct {
-	w      *world.World
-	r      *report.Run
-	j      job
-	keyed  bool
-	msg    vtypes.MsgServer
-	gov    govv1beta1.Handler
-	vmod   interface {
+	w     *world.World
+	r     *report.Run
+	j     job
+	keyed bool
+	msg   vtypes.MsgServer
+	gov   govv1beta1.Handler
+	vmod  interface {
 		EndBlock(context.Context) error
 		BeginBlock(context.Context) error
 	}
-	cons     [nVals]sdk.ConsAddress
-	rich     bool // richer alphabet: SJail for every validator, SchedRaise, two RaiseMin, two Adv2000
-	maxBig   int
+	cons      [nVals]sdk.ConsAddress
+	rich      bool // richer alphabet: SJail for every validator, SchedRaise, two RaiseMin, two Adv2000
+	maxBig    int
 	maxBigPos int // Adv2000 only among the first maxBigPos operations of a path
-	maxRaise int
-	desc     string
+	maxRaise  int
+	desc      string
 }
 
 func (e *env) count(k string) {
@@ -502,7 +502,9 @@ func (e *env) kaRecord(ctx sdk.Context, v int) string {
 // jail: the valset keeper's Jail as used by the other Paloma modules.
 func (e *env) jail(ctx *sdk.Context, g *ghost, v int) *explore.Fail {
 	pre := e.observe(*ctx)
-	err := atomically(*ctx, func(c sdk.Context) error { return e.w.App.ValsetKeeper.Jail(c, e.w.Vals[v].ValAddr, "verif: misbehaviour") })
+	err := atomically(*ctx, func(c sdk.Context) error {
+		return e.w.App.ValsetKeeper.Jail(c, e.w.Vals[v].ValAddr, "verif: misbehaviour")
+	})
 	post := e.observe(*ctx)
 	if err != nil {
 		if post != pre {
@@ -960,25 +962,6 @@ func runItem(r *report.Run, it item, deadline time.Time) {
 		return
 	}
 	r.Extra["setup_s"] = time.Since(t0).Seconds()
-	if os.Getenv("VERIF_C12_PROF") != "" {
-		ctx := world.Fork(mainSpec.Init[0].Ctx)
-		g := mainSpec.Init[0].Ghost.Clone().(*ghost)
-		tm := func(name string, f func()) {
-			t := time.Now()
-			for i := 0; i < 2000; i++ {
-				f()
-			}
-			fmt.Fprintf(os.Stderr, "PROF %s: %v per call\n", name, time.Since(t)/2000)
-		}
-		tm("staking.EndBlocker", func() { e.w.App.StakingKeeper.EndBlocker(ctx) })
-		tm("valset.EndBlock", func() { e.vmod.EndBlock(ctx) })
-		tm("valset.BeginBlock", func() { e.vmod.BeginBlock(ctx) })
-		tm("observe", func() { e.observe(ctx) })
-		tm("checkMin", func() { e.checkMin(ctx, g, "x") })
-		tm("UpdateGracePeriod", func() { e.w.App.ValsetKeeper.UpdateGracePeriod(ctx) })
-		tm("JailInactive", func() { e.w.App.ValsetKeeper.JailInactiveValidators(ctx) })
-		tm("endBlock(full step)", func() { e.endBlock(&ctx, g) })
-	}
 	if pf := os.Getenv("VERIF_C12_CPUPROF"); pf != "" {
 		if fh, err := os.Create(pf); err == nil {
 			_ = pprof.StartCPUProfile(fh)
